@@ -32,6 +32,11 @@ pub enum StreamKind {
     PrefixDiverge { n: usize },
     /// an HTTP/1.1 request whose request line shares a prefix with the preface
     Lookalike { line: String },
+    /// a complete HTTP/1.1 request after which the client closes its sending half while the
+    /// handler is still working (10 s of virtual time, far beyond any injected delay): what an
+    /// HTTP/1 server does then is configuration (hyper's half_close), and the handler behind the
+    /// detector must be configured like the single-protocol one
+    H1HalfClose { method: String, body_len: usize },
 }
 
 #[derive(Clone, Debug, Serialize, Deserialize)]
@@ -61,6 +66,7 @@ fn h1_request(method: &str, id: u32, body_len: usize) -> Vec<u8> {
 fn raw_bytes(kind: &StreamKind) -> Vec<u8> {
     match kind {
         StreamKind::H1 { method, body_len } => h1_request(method, 7, *body_len),
+        StreamKind::H1HalfClose { method, body_len } => h1_request(method, 13, *body_len),
         StreamKind::H2 { .. } => PREFACE.to_vec(),
         StreamKind::PrefixEof { n } => PREFACE[..*n].to_vec(),
         StreamKind::PrefixDiverge { n } => {
@@ -244,6 +250,7 @@ fn enumerated(tier: Tier) -> Vec<SniffCase> {
         StreamKind::H1 { method: "PROPFIND".into(), body_len: 30 },
         StreamKind::H1 { method: "PATCH".into(), body_len: 25 },
         StreamKind::H2 { body_len: 60 },
+        StreamKind::H1HalfClose { method: "POST".into(), body_len: 40 },
         StreamKind::Lookalike { line: "PRI * HTTP/1.1".into() },
         StreamKind::Lookalike { line: "PRI * HTTP/2.0".into() },
         StreamKind::Lookalike { line: "P /r/11/p HTTP/1.1".into() },
@@ -279,6 +286,7 @@ impl SniffSim {
     fn viol(out: &mut Outcome, rule: &str, case: &SniffCase, detail: String) {
         let kind = match &case.stream {
             StreamKind::H1 { .. } => "h1",
+            StreamKind::H1HalfClose { .. } => "h1_half_close",
             StreamKind::H2 { .. } => "h2",
             StreamKind::PrefixEof { .. } => "prefix_eof",
             StreamKind::PrefixDiverge { .. } => "prefix_diverge",
@@ -318,7 +326,8 @@ impl Scenario for SniffSim {
             return e[index as usize].clone();
         }
         let mut r = Rng::keyed(seed, "sniff");
-        let stream = match r.below(10) {
+        let stream = match r.below(11) {
+            10 => StreamKind::H1HalfClose { method: r.pick(&["GET", "POST", "PRIX"]).to_string(), body_len: r.range(0, 80) as usize },
             0..=2 => StreamKind::H1 { method: r.pick(&["GET", "POST", "PUT", "PRIX", "PATCH", "PROPFIND"]).to_string(), body_len: r.range(0, 80) as usize },
             3..=5 => StreamKind::H2 { body_len: r.range(0, 300) as usize },
             6 => StreamKind::PrefixEof { n: r.range(0, 23) as usize },
@@ -354,8 +363,8 @@ impl Scenario for SniffSim {
                 let log = Arc::new(Mutex::new(HandlerLog::default()));
                 let reflog = Arc::new(Mutex::new(HandlerLog::default()));
                 let mut plans = BTreeMap::new();
-                for id in [5u32, 7, 9, 11] {
-                    plans.insert(id, HandlerPlan { delay_ms: 0, resp_len: 70, resp_chunk: 33, resp_delay_ms: 0, fail: false, upgrade: false, redirect: None });
+                for id in [5u32, 7, 9, 11, 13] {
+                    plans.insert(id, HandlerPlan { delay_ms: if id == 13 { 10_000 } else { 0 }, resp_len: 70, resp_chunk: 33, resp_delay_ms: 0, fail: false, upgrade: false, redirect: None });
                 }
                 let plans = Arc::new(plans);
                 // ---- system under test: a real hyperdriver server with protocol detection
@@ -366,7 +375,7 @@ impl Scenario for SniffSim {
                 let c = net.raw_connect("http://a.test", Some((case.read_mode.clone(), IoMode::plain()))).expect("connect");
                 let sut = match &case.stream {
                     StreamKind::H2 { body_len } => h2_exchange(c, case.cuts.clone(), case.gap_ms, *body_len, forced2.clone()).await,
-                    k => raw_exchange(c, raw_bytes(k), case.cuts.clone(), case.gap_ms, forced2.clone(), matches!(k, StreamKind::PrefixEof { .. })).await,
+                    k => raw_exchange(c, raw_bytes(k), case.cuts.clone(), case.gap_ms, forced2.clone(), matches!(k, StreamKind::PrefixEof { .. } | StreamKind::H1HalfClose { .. })).await,
                 };
                 // ---- reference: the same bytes, unfragmented, against plain hyper
                 let rctx = HandlerCtx { net: net.clone(), log: reflog.clone(), plans: plans.clone(), origin: "http://a.test".into() };
@@ -391,7 +400,7 @@ impl Scenario for SniffSim {
                 let nobody = Arc::new(Mutex::new(0u64));
                 let reference = match &case.stream {
                     StreamKind::H2 { body_len } => h2_exchange(rc, vec![], 0, *body_len, nobody).await,
-                    k => raw_exchange(rc, raw_bytes(k), vec![], 0, nobody, matches!(k, StreamKind::PrefixEof { .. })).await,
+                    k => raw_exchange(rc, raw_bytes(k), vec![], 0, nobody, matches!(k, StreamKind::PrefixEof { .. } | StreamKind::H1HalfClose { .. })).await,
                 };
                 ref_server.abort();
                 let server_ended = server.is_finished();
@@ -495,7 +504,9 @@ impl Scenario for SniffSim {
                         format!("response to {:?} cut at {:?} differs from plain hyper http1: {} bytes {:?}... vs {} bytes {:?}...", case.stream, case.cuts, sut.raw.len(), a, reference.raw.len(), b),
                     );
                 }
-                if seen.len() != refseen.len() {
+                // (when the client half-closes during the exchange, whether the handler had been
+                // started before the server noticed is timing, and invisible to the client)
+                if seen.len() != refseen.len() && !matches!(case.stream, StreamKind::H1HalfClose { .. }) {
                     Self::viol(&mut out, "handler_calls_differ", case, format!("handler invoked {} times behind the detector, {} times behind plain hyper", seen.len(), refseen.len()));
                 }
             }
